@@ -963,7 +963,7 @@ func (c *FnCtx) run(fr *frame, st0 *State) (*State, []Val) {
 	if len(fn.Blocks) == 0 {
 		bail("function %s has no body", fn)
 	}
-	if fr.con != nil {
+	if fr.con != nil && c.bounded == 0 {
 		have := map[int]bool{}
 		for _, li := range fr.loops {
 			have[li.ord] = true
@@ -1106,6 +1106,18 @@ func (c *FnCtx) checkAsserts(fr *frame, b *ssa.BasicBlock, st *State, in ssa.Ins
 				return v, true
 			}
 			return base(n)
+		}
+		ec.entryName = func(name string) (Val, bool) {
+			for _, p := range fr.fn.Params {
+				if p.Name() == name {
+					v, ok := fr.regs[p]
+					return v, ok
+				}
+			}
+			return Val{}, false
+		}
+		if li != nil && fr.loopEntrySt != nil {
+			ec.loopEntry = fr.loopEntrySt[li]
 		}
 		t := ec.boolOf(a.Expr)
 		c.canaryNext = a.Canary
